@@ -1124,7 +1124,7 @@ func (P) Generate(g0 *core.Gen) {
 		}
 		g.Case("orphan-double-spends", len(s.defs) >= 3, s.line())
 	}
-	for i := 0; i < g.N(350, 6000); i++ {
+	for i := 0; i < g.N(300, 6000); i++ {
 		r := g.R.Fork()
 		s := newSim(r, randomPolicy(r), int(r.Pick(1, 2, 2, 3)))
 		s.scenario(int(r.Pick(8, 15, 25, 40)), false)
@@ -1298,7 +1298,7 @@ func (P) Generate(g0 *core.Gen) {
 			g.Case("concurrent-exploration", len(s.defs) >= 3, strings.Replace(s.line(), "C10 run ", "C10 conc ", 1))
 		}
 	}
-	for i := 0; i < g.N(550, 9000); i++ {
+	for i := 0; i < g.N(450, 9000); i++ {
 		r := g.R.Fork()
 		s := newSim(r, randomPolicy(r), int(r.Pick(1, 2, 2, 3)))
 		s.scenario(int(r.Pick(10, 20, 30, 50)), true)
